@@ -30,6 +30,7 @@ def run(c):
     r5(c)
     r6(c)
     r7(c)
+    r8(c)
 
 
 def r1(c):
@@ -469,3 +470,69 @@ def r7(c):
             else:
                 c.holds("C15.R7", repo.loc(m, sub), f"{q}/merge-key:{ACC}", f"key `{norm(sub.slice)}` depends on {sorted(deps)[:8]} only")
     c.floor("C15.R7", "accumulate-by-key merge sites", sites, 2)
+
+
+def unordered_memo_sites(fn):
+    """(store node, key expr) where a value computed by a call on >= 2 parameters is memoised under a key that passes those parameters through frozenset / set / sorted:
+    the key names the unordered pair while the call's result is oriented by the argument order"""
+    out = []
+    params = {a.arg for a in fn.args.args if a.arg not in ("self", "cls")}
+    if len(params) < 2:
+        return out
+    pv = Provenance(fn)
+
+    def oriented_call(v):
+        return isinstance(v, ast.Call) and len({x.id for a in v.args for x in ast.walk(a) if isinstance(x, ast.Name) and x.id in params}) >= 2
+
+    def loses_order(key):
+        k = pv.resolve_alias(key)
+        for x in ast.walk(k):
+            if isinstance(x, ast.Call) and call_name(x) in ("frozenset", "set", "sorted") and x.args:
+                used = {y.id for y in ast.walk(x) if isinstance(y, ast.Name) and y.id in params}
+                if len(used) >= 2:
+                    return True
+            if isinstance(x, ast.Name) and x is not k:
+                k2 = pv.resolve_alias(x)
+                if k2 is not x and isinstance(k2, ast.Call) and call_name(k2) in ("frozenset", "set", "sorted") and len({y.id for y in ast.walk(k2) if isinstance(y, ast.Name) and y.id in params}) >= 2:
+                    return True
+        return False
+    for n in walk_no_nested(fn):
+        if isinstance(n, ast.Assign) and len(n.targets) == 1 and isinstance(n.targets[0], ast.Subscript) and isinstance(n.targets[0].value, ast.Attribute) \
+                and oriented_call(n.value) and loses_order(n.targets[0].slice):
+            out.append((n, n.targets[0].slice))
+        if isinstance(n, ast.Call) and isinstance(n.func, ast.Attribute) and n.func.attr == "setdefault" and isinstance(n.func.value, ast.Attribute) and len(n.args) == 2 \
+                and oriented_call(n.args[1]) and loses_order(n.args[0]):
+            out.append((n, n.args[0]))
+    return out
+
+
+def r8(c):
+    import os
+    repo = c.repo
+    c.rule("C15.R8", "what the executor remembers between calls keeps the orientation it was computed in: no memo in annet/mesh stores the result of a call on two (or more) "
+                     "parameters under a key that forgets their order (frozenset / set / sorted of them) — storage.search_connections(a, b) answers (a's port, b's port) pairs; "
+                     "served from a cache filled while computing the other end, every port, address and session lands on the wrong side. Expected count 0; a positive fixture "
+                     "under /verif/fixtures proves the matcher alive")
+    fx = os.path.join(os.path.dirname(os.path.dirname(os.path.abspath(__file__))), "fixtures", "c15_unordered_memo.py")
+    tree = ast.parse(open(fx).read())
+    for n_ in ast.walk(tree):
+        for ch in ast.iter_child_nodes(n_):
+            ch._parent = n_
+    nfx = sum(len(unordered_memo_sites(f)) for f in ast.walk(tree) if isinstance(f, ast.FunctionDef))
+    if nfx != 2:
+        raise AnchorError(f"C15.R8: positive fixture matched {nfx} constructs, expected 2 (matcher broken)")
+    c.analysed["fixture_matches"] = nfx
+    nf = 0
+    for mn in sorted(n for n in repo.modules if n.startswith("annet.mesh")):
+        m = repo.module(mn)
+        for q, d in m.defs.items():
+            if not isinstance(d, ast.FunctionDef):
+                continue
+            nf += 1
+            for node, key in unordered_memo_sites(repo.func(mn, q, canon=False)):
+                c.violated("C15.R8", repo.loc(m, node), f"{mn.split('.')[-1]}:{q}/memo", f"`{norm(node)[:80]}` memoises an oriented result under the unordered key `{norm(key)[:50]}`: the second end of "
+                           "a link is served the first end's (local, remote) pairs", key_text="unordered-memo")
+    c.count("functions", nf)
+    c.floor("C15.R8", "mesh functions scanned", nf, 40)
+    if not [1 for v in c.instances if v["rule"] == "C15.R8"]:
+        c.holds("C15.R8", "annet/mesh", "mesh/memos", f"{nf} functions, no order-forgetting memo")
